@@ -305,6 +305,41 @@ def main():
         rep["_config"] = cfg
         rep["_flavour"] = "tsan" if is_tsan else "asan"
         reports.append(rep)
+    # ---- stretch (thorough tier only): spend what is left of the budget on deeper preemption bounds ------------------
+    # Every threaded harness that completed its registered bound is re-run at bound+1, cheapest first, round after round,
+    # as long as a run fits into the remaining time.  A deeper run replaces the shallower report only when it completed;
+    # a run cut by its deadline claims nothing (its failures, if any, are still reported).
+    stretched = []
+    if tier == "thorough" and "configs" not in spec and not a.only and not os.environ.get("VERIF_NO_STRETCH"):
+        cand = [r for r in reports if not r["sequential"] and r["exhaustive"] and not r["failures"]]
+        while cand:
+            left = total_deadline - (time.time() - t0)
+            if left < 45:
+                break
+            cand.sort(key=lambda r: r["wall_s"])
+            nxt = []
+            for r in cand:
+                left = total_deadline - (time.time() - t0)
+                # a bound step costs roughly one order of magnitude; do not start what cannot finish
+                if left < 45 or r["wall_s"] * 6 > left:
+                    continue
+                item = dict(r["_item"])
+                item["thorough"] = r["_bound_requested"] + 1
+                item.setdefault("cache-bits", 24)
+                is_tsan = r["_flavour"] == "tsan"
+                share = min(left - 20, max(30.0, left / max(1, len(cand))))
+                rep, err = run_harness(tsan_builder if is_tsan else builders[r["_config"]], item, tier, share, os.path.join(outdir, "stretch"))
+                if err:
+                    engine_errors.append("[stretch] " + err)
+                    continue
+                rep["_item"] = item; rep["_config"] = r["_config"]; rep["_flavour"] = r["_flavour"]
+                stretched.append({"harness": rep["harness"], "args": rep["args"], "flavour": rep["_flavour"], "bound": rep["_bound_requested"],
+                                  "complete": rep["exhaustive"], "executions": sum(b["executions"] for b in rep["bounds"]), "wall_s": rep["wall_s"]})
+                if rep["exhaustive"] or rep["failures"]:
+                    reports[reports.index(r)] = rep
+                    if rep["exhaustive"] and not rep["failures"]:
+                        nxt.append(rep)
+            cand = nxt
     # ---- verdicts ----
     known, _fixed = load_known()
     viol_lines, known_lines = [], []
@@ -420,7 +455,7 @@ def main():
                     "prefixes (choice-tree nodes for sequential harnesses); distinct_nontrivial = number of distinct observed outcome "
                     "vectors (harness notes) summed over harnesses",
             "exhaustive": bool(exhaustive), "harnesses": per, "build_s": round(build_s, 1),
-            "deadline_s": total_deadline, "engine_errors": engine_errors, "configurations": configs, **extra_cov,
+            "deadline_s": total_deadline, "engine_errors": engine_errors, "configurations": configs, "stretch_runs": stretched, **extra_cov,
         },
         "assumptions": spec.get("assumptions", []) + [
             "sequentially consistent interleavings of the hooked synchronisation operations (atomics, mutexes, condition variables, threads, clock)",
